@@ -21,9 +21,10 @@ open Life
 @[simp] theorem max_stopped (s : Status) : s.max .stopped = .stopped := by
   cases s <;> simp [Status.max, Status.rank]
 
-/-- Ports dropped, status `Stopped`, guard disarmed. -/
+/-- Ports dropped, status `Stopped`, guard disarmed, child set closed, no supervisor. -/
 def Dead (a : Actor) : Prop :=
-  a.phase = .done ∧ a.status = .stopped ∧ a.armed = false ∧ a.sigVal = false ∧ a.stopVal = none
+  a.phase = .done ∧ a.status = .stopped ∧ a.armed = false ∧ a.sigVal = false ∧ a.stopVal = none ∧
+  a.kids = none ∧ a.sup = none
 
 /-- The cell exists, its ports are open, the lifecycle guard is armed. -/
 def Alive (a : Actor) : Prop := a.phase ≠ .fresh ∧ a.phase ≠ .done ∧ a.armed = true
@@ -166,7 +167,7 @@ theorem envOp_keep (a : Actor) (op : AOp) :
 
 
 theorem envOp_dead (a : Actor) (op : AOp) (h : Dead a) : Dead (a.envOp op).1 := by
-  obtain ⟨h1, h2, h3, h4, h5⟩ := h
+  obtain ⟨h1, h2, h3, h4, h5, h6, h7⟩ := h
   cases op <;> simp only [Actor.envOp, apiSend, apiStop, apiKill, apiDrain, apiCall, opSupArrive, opTreeTaken,
     opLink, opUnlink, doLink, Dead]
   all_goals (repeat' split)
@@ -721,7 +722,7 @@ theorem Reach.alive_of_stop {a : Actor} (h : Reach a) (hs : a.stopVal.isSome = t
   rcases h with h | h | h
   · rw [h.2.2] at hs; cases hs
   · exact h
-  · rw [h.2.2.2.2] at hs; cases hs
+  · rw [h.2.2.2.2.1] at hs; cases hs
 
 
 /-! ### runs -/
